@@ -1,6 +1,6 @@
 (* C18 - lemma library for the proofs about Cube/XStats.v: Qc <-> Q transfer, None-absorbing sums,
    cells / per-cell selection, the missing rule as counts. *)
-From Coq Require Import ZArith QArith Qcanon Qround List Bool Lia Lra Lqa ZifyBool.
+From Coq Require Import ZArith QArith Qcanon Qround List Bool Lia Lqa ZifyBool.
 From Catii Require Import Cube.XStats Cube.XStatsSpec.
 Import ListNotations.
 Open Scope Z_scope.
